@@ -57,6 +57,9 @@ mut("c13_preview_owner_inverted", "C13", E, "                    piece_board_sta
 mut("c13_no_preview_on_upper_traps", "C13", E, "            let trapped_animal_bits = piece_board_state.trapped_piece_bits();\n            if trapped_animal_bits != 0 {\n                let square = Square::from_bit_board", "            let trapped_animal_bits = piece_board_state.trapped_piece_bits() & !((1u64 << 18) | (1u64 << 21));\n            if trapped_animal_bits != 0 {\n                let square = Square::from_bit_board", "captures on c6 and f6 are not previewed")
 # ---- C14
 mut("c14_step2_board_is_turn_start", "C14", E, "        previous_piece_boards.push(self.piece_board.clone());", "        previous_piece_boards.push(if step == 2 { play_phase.previous_piece_boards_this_move[0].clone() } else { self.piece_board.clone() });", "the board recorded for step 2 is the turn-start board")
+mut("c14_step2_board_stale_during_push", "C14", E, "        previous_piece_boards.push(self.piece_board.clone());", "        if step == 2 && play_phase.push_pull_state.is_must_complete_push() { previous_piece_boards.push(previous_piece_boards[1].clone()); } else {\n        previous_piece_boards.push(self.piece_board.clone()); }", "while a push is pending at step 2 the board recorded for step 2 is a copy of the step-1 board")
+mut("c12_cat_leaving_trap_no_pull", "C12,C01", E, "            && piece_type_at_bit != Piece::Rabbit\n        {", "            && piece_type_at_bit != Piece::Rabbit\n            && (source_square_bit & 0x0000_2400_0024_0000 == 0 || piece_type_at_bit != Piece::Cat)\n        {", "a cat stepping off a trap square never becomes a possible puller")
+mut("c08_hash_diff_at_most_two_squares", "C08", "src/zobrist.rs", "for square in map_bit_board_to_squares(diff_bits) {\n                    value ^=", "for square in map_bit_board_to_squares(diff_bits).into_iter().take(2) {\n                    value ^=", "the incremental hash handles at most two changed squares per piece type (mover and abandoned trap piece of one type and colour make three)")
 # ---- C18
 mut("c18_rc_instead_of_arc", "C18", "src/linked_list.rs", "#[cfg(not(arimaa_engine_step_verif))]\nuse std::sync::Arc;", "#[cfg(not(arimaa_engine_step_verif))]\nuse std::rc::Rc as Arc;", "the history list links through Rc")
 mut("c18_rc_with_unsafe_impl", "C18", "src/linked_list.rs", "#[cfg(not(arimaa_engine_step_verif))]\nuse std::sync::Arc;", "#[cfg(not(arimaa_engine_step_verif))]\nuse std::rc::Rc as Arc;\nunsafe impl<T> Send for List<T> {}\nunsafe impl<T> Sync for List<T> {}", "Rc links with unsafe impl Send/Sync to keep clients compiling")
